@@ -23,19 +23,24 @@ call, and `down` is observed after `close()` returned.  Observations are those o
 markers: `made` (makeRequest returned Deferred number `serial`), `closing` (`close()` went ahead),
 `hookBegin`/`hookEnd` around everything a re-entrant action does.
 
-A hook is one action; each Deferred fires at most once, so hooks nest at most as deep as there are
-requests; `fuel` (decremented on every call) bounds the recursion structurally, `fuelOut` would be
+A hook is a finite list of actions; each Deferred fires at most once, so hooks nest at most as deep as
+there are requests; `fuel` (decremented on every call) bounds the recursion structurally, `fuelOut` would be
 emitted if it ran out (it cannot for fuel ≥ the size of the scenario; the driver uses 100000).
 -/
 namespace Afkak.BrokerClientR
 open Afkak.Frame Afkak.BrokerClient Afkak.Consts
 
-inductive Hook
+/-- one call a callback makes into the broker client -/
+inductive Action
   | close
   | disconnect
   | cancel (id : Int)
   | make (id : Int) (expect : Bool)
   deriving DecidableEq, Repr
+
+/-- a callback: any finite sequence of calls (each call's own exception — `AssertionError` of a second
+    `close()`, `DuplicateRequestError` — is caught by the callback, the next call still runs) -/
+abbrev Hook := List Action
 
 inductive ObR
   | ob (o : Ob)
@@ -52,20 +57,25 @@ inductive ObR
 inductive EvR
   | make (id : Int) (expect : Bool) (hook : Option Hook)
   | flat (e : Ev)
+  /-- environment switch: the endpoint IGNORES `cancel()` of a connection attempt and connects from
+      inside the canceller (the pathological endpoint of `test_close_connecting_succeed`) -/
+  | stubborn (on : Bool)
   deriving DecidableEq, Repr
 
 structure StR where
   core : St
   /-- callbacks waiting on unfired Deferreds, by serial -/
   hooks : List (Nat × Hook)
+  stubborn : Bool := false
   deriving DecidableEq, Repr
 
-def StR.init (host port : Nat) : StR := { core := St.init host port, hooks := [] }
+def StR.init (host port : Nat) : StR := { core := St.init host port, hooks := [], stubborn := false }
 
 inductive Task
   | fire (k : Nat) (id : Int) (r : Res)
   | fireAll (l : List (Nat × Int)) (r : Res)
-  | act (h : Hook)
+  | acts (h : List Action)
+  | act (a : Action)
   | make (id : Int) (ex : Bool) (h : Option Hook)
   | cancel (id : Int)
   | close
@@ -89,12 +99,17 @@ def exec (cfg : Cfg) : Nat → StR → Task → StR × List ObR
       match lookupHook s.hooks k with
       | none => (s, [.ob (.fire k id r)])
       | some h =>
-        let r2 := exec cfg n { s with hooks := s.hooks.filter (fun p => p.1 != k) } (.act h)
+        let r2 := exec cfg n { s with hooks := s.hooks.filter (fun p => p.1 != k) } (.acts h)
         (r2.1, [.ob (.fire k id r), .hookBegin k] ++ r2.2 ++ [.hookEnd])
     | .fireAll [] _ => (s, [])
     | .fireAll (p :: ps) r =>
       let r1 := exec cfg n s (.fire p.1 p.2 r)
       let r2 := exec cfg n r1.1 (.fireAll ps r)
+      (r2.1, r1.2 ++ r2.2)
+    | .acts [] => (s, [])
+    | .acts (a :: as) =>
+      let r1 := exec cfg n s (.act a)
+      let r2 := exec cfg n r1.1 (.acts as)
       (r2.1, r1.2 ++ r2.2)
     | .act .close => exec cfg n s .close
     | .act .disconnect => let r := step cfg c .disconnect; ({ s with core := r.1 }, obs r.2)
@@ -106,28 +121,28 @@ def exec (cfg : Cfg) : Nat → StR → Task → StR × List ObR
         let k := c.nmake
         let reg : List (Nat × Hook) := match h with | some h => (k, h) :: s.hooks | none => s.hooks
         if c.closed then
-          let r := exec cfg n { core := { c with nmake := k + 1 }, hooks := reg } (.fire k id (.err .clientError))
+          let r := exec cfg n { s with core := { c with nmake := k + 1 }, hooks := reg } (.fire k id (.err .clientError))
           (r.1, .made k id :: r.2)
         else
           let rq : Req := { serial := k, id, expect := ex, sent := false, cancelled := false }
           match c.proto with
           | some conn =>
             if c.wfail then
-              let r := exec cfg n { core := { c with nmake := k + 1 }, hooks := reg } (.fire k id (.err .writeError))
+              let r := exec cfg n { s with core := { c with nmake := k + 1 }, hooks := reg } (.fire k id (.err .writeError))
               (r.1, .made k id :: r.2)
             else
               let w : Ob := if c.losing then .writeLost conn k id else .write conn k id
-              if ex then ({ core := { c with nmake := k + 1, reqs := c.reqs ++ [{ rq with sent := true }] }, hooks := reg },
+              if ex then ({ s with core := { c with nmake := k + 1, reqs := c.reqs ++ [{ rq with sent := true }] }, hooks := reg },
                           [.ob w, .made k id])
               else
-                let r := exec cfg n { core := { c with nmake := k + 1 }, hooks := reg } (.fire k id .none)
+                let r := exec cfg n { s with core := { c with nmake := k + 1 }, hooks := reg } (.fire k id .none)
                 (r.1, [.ob w, .made k id] ++ r.2)
           | none =>
             let c1 := { c with nmake := k + 1, reqs := c.reqs ++ [rq] }
             if c.connector = .none then
               let r := connect_ c1
-              ({ core := r.1, hooks := reg }, obs r.2 ++ [.made k id])
-            else ({ core := c1, hooks := reg }, [.made k id])
+              ({ s with core := r.1, hooks := reg }, obs r.2 ++ [.made k id])
+            else ({ s with core := c1, hooks := reg }, [.made k id])
     | .cancel id =>
       if c.reqs.any (fun r => r.id == id && !r.cancelled) then
         let c1 := { c with reqs := (c.reqs.filter (fun r => r.id != id || r.sent)).map
@@ -143,6 +158,14 @@ def exec (cfg : Cfg) : Nat → StR → Task → StR × List ObR
           let r := exec cfg n { s with core := { c with closed := true, losing := true } } .closeLoop
           (r.1, [.closing, .ob (.lose conn)] ++ r.2)
         | none =>
+          if s.stubborn && c.connector == .attempt then
+            -- the endpoint connects from inside `connector.cancel()`: `cbConnect` runs with `_dDown` set
+            let conn := c.nconn
+            let c1 : St := { c with closed := true, failures := 0, connector := .none, proto := some conn,
+                                    nconn := c.nconn + 1, losing := true, rbuf := [] }
+            let r := exec cfg n { s with core := c1 } .closeLoop
+            (r.1, [.closing, .ob .cancelConnect, .ob (.lose conn)] ++ r.2)
+          else
           let pre : List ObR := match c.connector with
             | .attempt => [.ob .cancelConnect]
             | .backoff _ => [.ob .cancelTimer]
@@ -220,6 +243,7 @@ def stepRWith (cfg : Cfg) (fuel : Nat) (s : StR) : EvR → StR × List ObR
         let f := feed c.rbuf chunk
         exec cfg fuel s (.frames conn f.frames f)
   | .flat e => let r := step cfg s.core e; ({ s with core := r.1 }, obs r.2)
+  | .stubborn on => ({ s with stubborn := on }, [])
 
 /-- the fuel the driver runs with -/
 def fuel : Nat := 100000
